@@ -171,6 +171,31 @@ Proof.
   repeat match goal with |- context [if ?c then _ else _] => destruct c eqn:?; try lia end.
 Qed.
 
+Lemma zlen_set_nth : forall l k u, 0 <= k -> zlen (set_nth l (Z.to_nat k) u) = Z.max (zlen l) (k + 1).
+Proof. intros. unfold zlen. rewrite set_nth_length. lia. Qed.
+
+Lemma index2_set_nth_in : forall l i u, 0 <= clamp i (-1) (zlen l) < zlen l ->
+  index2 (JArr (set_nth l (Z.to_nat (clamp i (-1) (zlen l))) u)) (PI i) = Some u.
+Proof.
+  intros l i u H. cbn [index2]. rewrite zlen_set_nth by lia.
+  replace (Z.max (zlen l) (clamp i (-1) (zlen l) + 1)) with (zlen l) by lia.
+  replace (0 <=? clamp i (-1) (zlen l)) with true by lia.
+  replace (clamp i (-1) (zlen l) <? zlen l) with true by lia.
+  cbn [andb]. rewrite set_nth_nth. auto.
+Qed.
+
+Lemma index2_set_nth_grow : forall l i u, 0 <= i -> zlen l <= i ->
+  index2 (JArr (set_nth l (Z.to_nat i) u)) (PI i) = Some u.
+Proof.
+  intros l i u H H0. cbn [index2]. rewrite zlen_set_nth by lia.
+  replace (Z.max (zlen l) (i + 1)) with (i + 1) by lia.
+  assert (clamp i (-1) (i + 1) = i).
+  { unfold clamp. destruct (i <? 0) eqn:E; try lia.
+    destruct (i <? -1) eqn:E'; try lia. destruct (i <? i + 1) eqn:E''; try lia. }
+  rewrite H1. replace (0 <=? i) with true by lia. replace (i <? i + 1) with true by lia.
+  cbn [andb]. rewrite set_nth_nth. auto.
+Qed.
+
 (* ==== L1: reading back what was written ==== *)
 (* getpath q (setpath q x v) = x whenever the write is defined, for paths of keys and indices (a slice
    write may change the length of the window it wrote through, see docs/C02.md) *)
@@ -194,7 +219,7 @@ Proof.
         { destruct (lookup k m) eqn:L.
           - destruct (update j p n) eqn:U; inversion Hu; subst. eauto 8.
           - rewrite En in Hu. destruct (update JNull p n) eqn:U; inversion Hu; subst. eauto 8. }
-        simpl. rewrite lookup_insert_same. eapply IH; eauto.
+        simpl. rewrite lookup_insert_same. apply (IH x n u'); auto.
         destruct Hx as [L | [_ ->]]; [|exact I].
         destruct Hv as [[-> ->] | ->]; try discriminate. exact (lookup_clean _ _ _ Hc L). }
       destruct v; try discriminate.
@@ -215,23 +240,17 @@ Proof.
         destruct (clamp i (-1) (zlen l) <? 0) eqn:E1; try discriminate.
         destruct (clamp i (-1) (zlen l) <? zlen l) eqn:E2.
         - destruct (update (nth (Z.to_nat (clamp i (-1) (zlen l))) l JNull) p n) eqn:U; inversion Hu; subst.
-          simpl. unfold zlen. rewrite set_nth_length.
           assert (0 <= clamp i (-1) (zlen l) < zlen l) by lia.
-          replace (Z.of_nat (Nat.max (length l) (S (Z.to_nat (clamp i (-1) (zlen l)))))) with (zlen l) by (unfold zlen in *; lia).
-          rewrite E2. replace (0 <=? clamp i (-1) (zlen l)) with true by lia. simpl.
-          rewrite set_nth_nth. eapply IH; eauto.
+          cbn [getpath]. rewrite index2_set_nth_in by auto.
+          apply (IH (nth (Z.to_nat (clamp i (-1) (zlen l))) l JNull) n j); auto.
           destruct Hv as [[-> ->] | ->]; [destruct (Z.to_nat _); simpl; auto | apply nth_clean; auto].
         - destruct (max_index <=? i) eqn:E3; try discriminate.
           destruct (update JNull p n) eqn:U; inversion Hu; subst.
           assert (0 <= i /\ zlen l <= i).
           { unfold clamp in E1, E2. unfold zlen in *. destruct (i <? 0) eqn:E;
             repeat match type of E1 with context [if ?c then _ else _] => destruct c eqn:? end; lia. }
-          simpl. unfold zlen. rewrite set_nth_length.
-          replace (Z.of_nat (Nat.max (length l) (S (Z.to_nat i)))) with (i + 1) by (unfold zlen in *; lia).
-          assert (clamp i (-1) (i + 1) = i). { unfold clamp. destruct (i <? 0) eqn:E; try lia.
-            destruct (i <? -1) eqn:E'; try lia. destruct (i <? i + 1) eqn:E''; try lia. }
-          rewrite H1. replace (0 <=? i) with true by lia. replace (i <? i + 1) with true by lia. simpl.
-          rewrite set_nth_nth. eapply IH; eauto. simpl. auto. }
+          cbn [getpath]. rewrite index2_set_nth_grow by lia.
+          apply (IH JNull n j); simpl; auto. }
       destruct v; try discriminate.
       * apply (Harr []); auto.
       * contradiction.
